@@ -71,6 +71,16 @@ CHECKS = {
    text="Concurrent.tla models N goroutines issuing two-step (call/return) stateless calls, decodes that need the word lookup table, and Sign on per-goroutine private XMSS keys; a constant selects how the lookup table the code's FIXME asks for is built (none = today's per-call table, locked, racy). TLC checks HistoryFree (every return equals the sequential result) and independence of the private keys for every interleaving of 3 goroutines for none/locked, and - as a non-vacuity control executed on every run - finds the stale-read interleaving for racy. Conformance: a seeded pool of 74 distinct calls (XMSS/Dilithium verify, open, shared-key Dilithium Sign/Seal, address derivation/validation, mnemonic enc/dec, descriptors, key generation) is first run alone in one process (oracle), then in a FRESH process built with -race on 2..64 goroutines under GOMAXPROCS 1..16: a stampede phase releases all goroutines into the same call at once (first uses coincide), then seeded random mixes with per-goroutine private XMSS key scripts; TLC (TraceConcurrent.tla) requires per-goroutine call/return alternation, every result equal to the oracle, strictly increasing private-key indices, and no race report (race reports are appended to the trace as events).",
    note="Interleavings of the real code are sampled; the race detector is happens-before based but only remembers recent accesses, which is why first uses are made to coincide; events are collected in goroutine-local slices because json/fmt go through sync.Pool (a synchronisation point that hides races).",
    technique="explicit TLA+ spec + TLC exhaustive interleavings (with a seeded-bug control); trace validation of race-detector-instrumented concurrent runs against a sequential oracle"),
+ "C12": dict(
+   level="model_checking", design_ref="6 (C12), 3.10",
+   text="DilithiumMath.tla holds the mathematical definitions (centred mod, Power2Round, Decompose with the q-1 wrap, MakeHint as [HighBits differs], UseHint, centred norm) and transcriptions of the Go bit tricks. Design: TLC shows trick = definition for all residues (thorough: every a in [0,q); quick: neighbourhoods of every breakpoint plus a stride), makeHint on the whole hint domain, reduce32 congruence and range, and the hint lemma; Apalache proves montgomeryReduce correct on its whole 2^55 operand range (Montgomery.tla, 3 s). Conformance: the COMPLETE input/output tables of the real decompose, power2Round, useHint, cAddQ, makeHint, polyChkNorm and reduce32 (all 2^32-2^22 operands) are computed through the aliases, compressed losslessly into affine segments and decided exactly by TLC (TraceDilMath.tla: two piecewise-affine functions agree on an interval iff they agree at its ends and at every breakpoint of either); montgomeryReduce on domain ends, multiples of 2^32 and q, zeta x coefficient products (20-bit limbs, 8-bit-limb MulMod in TLC); invntt(ntt(a) o ntt(b)) against the negacyclic product on extreme/structured/random polynomials; the zetas table against 2^32 * 1753^brv(k).",
+   note="Montgomery: proved for the transcription, sampled on the code. NTT: structured samples plus zetas table, not all polynomials. polyChkNorm is compared with the centred norm on reduce32's output range (what its callers pass).",
+   technique="explicit TLA+ definitions + TLC exhaustive over residues, Apalache for the 64-bit reduction; complete function tables of the real code validated as traces"),
+ "C13": dict(
+   level="model_checking", design_ref="6 (C13), 3.10",
+   text="DilithiumPack.tla states bit packing once (value i occupies bits [i*w,(i+1)*w) of a little-endian stream); each library packer is PackBits(width, offset - c). Design: TLC checks unpack(pack(v)) = v and pack(unpack(b)) = b for every lane of an 8-value group over all values (thorough: all 2^20 z values per lane) with extreme neighbours, and the HintCodec round trips. Conformance through the aliases: per packer, extremes and one-hot values in every lane over four backgrounds, every coefficient position with both extremes, random polynomials, arbitrary byte strings decoded and re-encoded; hint vectors of weights 0,1,2,74,75,76,80 in four shapes through packSig/unpackSig (heavier than OMEGA must not be accepted); genuine, z-randomised and hint-mutated signatures through unpackSig and packSig again; public/secret key layouts; every event recomputed by TLC (TraceDilPack.tla).",
+   note="Positions are covered by loop uniformity plus every position with both extremes; whole-signature re-encoding compared on digests.",
+   technique="explicit TLA+ spec of the generic bit packer and hint codec + TLC; trace validation of the real packers/unpackers"),
 }
 
 NOT_YET = {
